@@ -12,6 +12,7 @@ package gvc
 import (
 	"go/token"
 	"go/types"
+	"strings"
 
 	"golang.org/x/tools/go/ssa"
 )
@@ -113,7 +114,15 @@ func (x *Exec) getterValueSt(st *State, h map[string]Term, fn *ssa.Function, rec
 	if !ok {
 		return Val{}, false
 	}
-	pt := fn.Params[0].Type().Underlying().(*types.Pointer).Elem()
+	var recvT types.Type
+	if len(fn.Params) > 0 {
+		recvT = fn.Params[0].Type()
+	} else if fn.Signature.Recv() != nil {
+		recvT = fn.Signature.Recv().Type()
+	} else {
+		return Val{}, false
+	}
+	pt := recvT.Underlying().(*types.Pointer).Elem()
 	if recv.T.Sort != SRef {
 		// applied (in a specification) to the struct value itself: the field of that value
 		si := x.S.StructInfo(pt)
@@ -144,4 +153,35 @@ func (x *Exec) getterValueSt(st *State, h map[string]Term, fn *ssa.Function, rec
 		return Val{T: x.define(st, "ld", t), Typ: rt}, true
 	}
 	return Val{T: Ite(Eq(recv.T, TNull), zero, t), Typ: rt}, true
+}
+
+// getterFieldNoBody: the same for a getter whose package was loaded without function bodies (a dependency
+// of the packages under check): a method GetX of *T declared in a generated *.pb.go file, where T has a
+// field X of exactly the result type. The shape of the body is then taken on trust from the generator.
+func getterFieldNoBody(fn *ssa.Function) (int, bool) {
+	if fn.Signature == nil || fn.Signature.Recv() == nil || fn.Signature.Params().Len() != 0 || fn.Signature.Results().Len() != 1 {
+		return 0, false
+	}
+	name := fn.Name()
+	if !strings.HasPrefix(name, "Get") || len(name) < 4 {
+		return 0, false
+	}
+	pt, ok := fn.Signature.Recv().Type().Underlying().(*types.Pointer)
+	if !ok {
+		return 0, false
+	}
+	st, ok := pt.Elem().Underlying().(*types.Struct)
+	if !ok {
+		return 0, false
+	}
+	obj := fn.Object()
+	if obj == nil || fn.Prog == nil || fn.Prog.Fset == nil || !strings.HasSuffix(fn.Prog.Fset.Position(obj.Pos()).Filename, ".pb.go") {
+		return 0, false
+	}
+	for i := 0; i < st.NumFields(); i++ {
+		if st.Field(i).Name() == name[3:] && types.Identical(st.Field(i).Type(), fn.Signature.Results().At(0).Type()) {
+			return i, true
+		}
+	}
+	return 0, false
 }
